@@ -201,7 +201,49 @@ def variant_edits(root):
     open(p1, "w", encoding="utf-8").write(t)
 
 
-VARIANTS = {"reformat": variant_reformat, "rename": variant_rename, "lua_ws": variant_lua_ws, "reorder": variant_reorder,
+def variant_refactor(root):
+    """behaviour-preserving restructurings of the kind the seeding agents used as camouflage"""
+    # (a) table-driven emitters for the three brace-delimited kinds
+    p = os.path.join(root, PKG, "node_expand.py")
+    s = open(p, encoding="utf-8").read()
+    old = s[s.index("        elif kind == NodeKind.TEMPLATE:\n"):s.index("        elif kind == NodeKind.URL:\n")]
+    new = (
+        "        elif kind in CALL_BRACES:\n"
+        "            start, end = CALL_BRACES[kind]\n"
+        "            args = node.largs\n"
+        "            parts.append(start)\n"
+        "            if kind == NodeKind.PARSER_FN:\n"
+        "                parts.append(recurse(args[0]))\n"
+        "                if len(args) > 1:\n"
+        "                    parts.append(\":\")\n"
+        "                args = args[1:]\n"
+        "            parts.append(\"|\".join(map(recurse, args)))\n"
+        "            parts.append(end)\n"
+    )
+    s = s.replace(old, new)
+    s = s.replace("def to_attrs(node: WikiNode) -> str:",
+                  "CALL_BRACES: dict[NodeKind, tuple[str, str]] = {\n    NodeKind.TEMPLATE: (\"{{\", \"}}\"),\n"
+                  "    NodeKind.TEMPLATE_ARG: (\"{{{\", \"}}}\"),\n    NodeKind.PARSER_FN: (\"{{\", \"}}\"),\n}\n\n\n"
+                  "def to_attrs(node: WikiNode) -> str:", 1)
+    open(p, "w", encoding="utf-8").write(s)
+    # (b) table-driven path sanitiser, same order of steps
+    _edit(root, PKG + "/luaexec.py",
+          '        path = re.sub(r"//+", "/", path)  # Replace multiple slashes by one\n'
+          '        path = re.sub(r"\\.\\.+", ".", path)  # Replace .. and longer by .\n'
+          '        path = re.sub(r"^/+", "", path)  # Remove initial slashes\n',
+          '        for pattern, repl in MODULE_PATH_CLEANUPS:\n            path = pattern.sub(repl, path)\n')
+    _edit(root, PKG + "/luaexec.py", "def _bind(fn: Callable, *bound: Any) -> Callable:",
+          'MODULE_PATH_CLEANUPS: list[tuple[re.Pattern, str]] = [\n    (re.compile(r"//+"), "/"),\n    (re.compile(r"\\.\\.+"), "."),\n'
+          '    (re.compile(r"^/+"), ""),\n]\n\n\ndef _bind(fn: Callable, *bound: Any) -> Callable:')
+    # (c) the chained form of two replacements
+    _edit(root, PKG + "/luaexec.py", '        path = path.replace(":", "/")\n        path = path.replace(" ", "_")\n',
+          '        path = path.replace(":", "/").replace(" ", "_")\n')
+    # (d) marking statement written with named placeholders is still keyed by title only
+    _edit(root, PKG + "/core.py", '"UPDATE pages SET need_pre_expand = 1 WHERE title = ?", (name,)',
+          '"UPDATE pages SET need_pre_expand = 1 WHERE title = ?",\n            (name,),')
+
+
+VARIANTS = {"reformat": variant_reformat, "rename": variant_rename, "lua_ws": variant_lua_ws, "reorder": variant_reorder, "refactor": variant_refactor,
             "edits": variant_edits}
 
 
